@@ -191,6 +191,7 @@ def run_case(case, ctx):
     if case.get("kind") == "include-rewrite":
         return run_include_rewrite(case, ctx)
     texts = case["texts"]
+    ctx.evaluations += len(texts) - 1            # one evaluation per text (each is assembled seven times and compared)
     r = rng(ctx.seed, "C17", case["id"], "orders")
     n = len(texts)
     warm = {}
